@@ -775,13 +775,13 @@ def RebuildProxy(func, token, serializer, kwds):
     """
     Function used for unpickling proxy objects.
     """
-    incref = kwds.pop('incref', True) and not getattr(
-        current_process(), '_inheriting', False
-    )
+    incref = kwds.pop('incref', True)
     obj = func(token, serializer, incref=incref, **kwds)
     # `func` is either `AutoProxy` or a subclass of `BaseProxy`.
-    # TODO: it appears `incref` is True some times and False some others, affecting by the '_inheriting` condition.
-    # Understand the `'_inheriting'` thing.
+    # The standard version does not `incref` while a spawned child is unpickling its process
+    # object (`current_process()._inheriting`). Here `__reduce__` has always taken a reference
+    # for the pickle, so the rebuilt proxy must own it in that case as well, otherwise
+    # it is created without a finalizer and the reference is never returned.
 
     if incref:
         # Counter the extra `incref` that's done in `BaseProxy.__init__`.
